@@ -186,7 +186,7 @@ pub fn eval(ctx: &Context, env: &Env, root: ExprRef) -> Result<Val, EvalError> {
     eval_memo(ctx, env, &mut memo, root)
 }
 
-fn eval_node(ctx: &Context, m: &Env, e: ExprRef) -> Result<Val, EvalError> {
+pub fn eval_node(ctx: &Context, m: &Env, e: ExprRef) -> Result<Val, EvalError> {
     let b = |r: &ExprRef| -> &Bv { m[r].bv() };
     let a = |r: &ExprRef| -> &ArrV { m[r].arr() };
     let bl = |x: bool| Val::B(Bv::from_bool(x));
@@ -473,5 +473,44 @@ fn render_into(ctx: &Context, e: ExprRef, s: &mut String, depth: usize) {
             }
             s.push(')');
         }
+    }
+}
+
+/// value of node `e` if its children had the given values (positional), without building a node
+pub fn apply_node(ctx: &Context, e: ExprRef, child_vals: &[Val]) -> Result<Val, EvalError> {
+    let kids = children(ctx, e);
+    assert_eq!(kids.len(), child_vals.len());
+    let mut m = Env::default();
+    for (k, v) in kids.iter().zip(child_vals.iter()) {
+        if let Some(prev) = m.get(k) {
+            if prev != v {
+                // the same original child occurs twice but was given two different values: cannot happen
+                // for a consistent rewrite of children
+                return Err(EvalError("inconsistent child values".into()));
+            }
+        }
+        m.insert(*k, v.clone());
+    }
+    eval_node(ctx, &m, e)
+}
+
+/// shape of a node for rule signatures: literal kinds, symbol, or operator name
+pub fn shape(ctx: &Context, e: ExprRef) -> String {
+    match &ctx[e] {
+        Expr::BVLiteral(v) => {
+            let b = bv_from_baa(&v.get(ctx));
+            if b.is_zero() {
+                "lit0".into()
+            } else if b.v == super::bv::mask(b.w) {
+                "litones".into()
+            } else if b.v == BigUint::from(1u32) {
+                "lit1".into()
+            } else {
+                "lit".into()
+            }
+        }
+        Expr::BVSymbol { .. } => "sym".into(),
+        Expr::ArraySymbol { .. } => "asym".into(),
+        other => op_name(other).into(),
     }
 }
